@@ -12,7 +12,28 @@ def enc_loc(loc):
     return [0 if ln >= 0 else 1, abs(ln), len(fn), sum(ord(c) for c in fn)]
 
 
-def impl_lex(filename, text):
+class LexTimeout(Exception):
+    pass
+
+
+def _alarm(signum, frame):
+    raise LexTimeout()
+
+
+def impl_lex(filename, text, limit=10):
+    """canonical raw token stream of the real lexer; [66] when it does not finish within [limit] seconds"""
+    import signal
+    signal.signal(signal.SIGALRM, _alarm)
+    signal.alarm(limit)
+    try:
+        return _impl_lex(filename, text)
+    except LexTimeout:
+        return [66]
+    finally:
+        signal.alarm(0)
+
+
+def _impl_lex(filename, text):
     L = impl.L
     lx = L.PlyLexer(filename)
     lx.input(text)
@@ -34,7 +55,7 @@ def impl_lex(filename, text):
 def model_lex(cases):
     """cases: list of (filename, text)"""
     lines = [[20, len(f)] + [ord(c) for c in f] + [ord(c) for c in t] for f, t in cases]
-    return run_driver(lines)
+    return run_driver(lines, timeout=180)
 
 
 def decode_tokens(nums):
